@@ -25,6 +25,8 @@ def prepare(ctx):
     from cardutil import iso8583, card, mciipm
     from cardutil.config import config
     ctx.iso, ctx.card, ctx.mciipm = iso8583, card, mciipm
+    import cardutil
+    ctx.CardutilError = cardutil.CardutilError
     msgwork.set_packaged(config['bit_config'])
 
 
@@ -181,7 +183,19 @@ def judge_decode(ctx, case):
         at = rng.randint(6, n - 5) if shape == 5 else rng.choice([n - 1, n - 4, 0, 5])
         pan = pan[:at] + sp + pan[at + 1:]
         ctx.count('card numbers with a control character decoded')
-    msg = {'MTI': '1240', 'DE%d' % b: pan}
+    numeric = None
+    fl = cfg[str(b)]['field_length']
+    if shape == 7 and case['cfg'] == 'packaged' and (n <= 28 if not fl else 11 <= fl <= 28):
+        # the masked element also declared as a number: whatever decoding then does (refuse, or return the prefix as a
+        # number), the clear card number must not come back
+        numeric = ('int', 'long', 'decimal')[(case['salt'] // 8 + b) % 3]
+        cfg[str(b)]['field_python_type'] = numeric
+        if fl:                              # numbers are written zero-filled to the configured width: use all of it
+            n = fl
+            pan = ''.join(rng.choice('0123456789') for _ in range(n))
+        pan = str(rng.randint(1, 9)) + pan[1:]
+        ctx.count('masked elements declared as a number')
+    msg = {'MTI': '1240', 'DE%d' % b: int(pan) if numeric else pan}
     # other elements: letters only (cannot coincide with the PAN's digits)
     for ob in rng.sample(gen.data_bits(cfg), min(5, len(gen.data_bits(cfg)))):
         oc = cfg[str(ob)]
@@ -226,13 +240,19 @@ def judge_decode(ctx, case):
                 return
             back = back[0]
     ctx.count('decodes under a masking configuration')
+    if numeric and kind == 'exc' and isinstance(back, ctx.CardutilError):
+        ctx.count('numeric masked element: decoding refused with the library error (nothing returned)')
+        return
     if kind != 'ok':
         ctx.violation('decode:%s' % ('step_budget' if kind == 'steps' else 'exception:' + type(back).__name__),
                       {'case': case, 'error': repr(back)})
         return
     key = 'DE%d' % b
     want = ref.mask(pan) if proc == 'PAN' else pan[:9]
-    if back.get(key) != want:
+    got_v = back.get(key)
+    if numeric and proc == 'PAN-PREFIX' and not isinstance(got_v, str) and got_v is not None and str(got_v) == want:
+        got_v = want                      # the nine-digit prefix, as the number the configuration asked for
+    if got_v != want:
         ctx.violation('decode:%s_value_not_%s' % (proc, 'masked' if proc == 'PAN' else 'nine_character_prefix'),
                       {'case': case, 'pan': pan, 'got': repr(back.get(key)), 'want': want})
         return
@@ -260,7 +280,7 @@ def require(m):
     reasons = []
     if set(m['classes'].get('card number lengths masked', ())) != set(range(10, 41)):
         reasons.append('mask(): lengths 10..40 not all driven')
-    for need in ('card numbers with separators decoded', 'card numbers with letters decoded', 'card numbers with a control character decoded',
+    for need in ('masked elements declared as a number', 'card numbers with separators decoded', 'card numbers with letters decoded', 'card numbers with a control character decoded',
                  'mask calls on numbers holding a special character',
                  'decodes after masking was switched on in an already used configuration object'):
         if not m['counters'].get(need):
